@@ -64,6 +64,8 @@ def flags_of(src):
         fl.add("closure")
     if src.startswith("class K:"):
         fl.add("inclass")
+        if "    def make():" in src:
+            fl.add("nested")
     if any(isinstance(n, (ast.Yield, ast.YieldFrom)) for n in _own_nodes(fdef)):
         fl.add("gen")
     if fdef.args.vararg is not None:
